@@ -9,6 +9,7 @@ import (
 )
 
 var famMixed = vFamily{P1: 3, P2: false, Vals: 2, Del: true}
+var famSmall = vFamily{P1: 2, P2: false, Vals: 2, Del: true}
 
 type vSnap struct {
 	t       int64
@@ -102,9 +103,20 @@ func VerifC06History(h *verifh.H) {
 	hs := vNewHistory(h, "d1", "d2")
 	steps := h.Param("steps", 1)
 	suffix := h.Param("suffix", 1)
+	fam := famMixed
+	if h.Param("small", 0) == 1 {
+		fam = famSmall
+	}
 	var snaps []*vSnap
 	for s := 0; s < steps; s++ {
-		hs.step(h, s, famMixed, false, false)
+		if s == 0 && h.Param("fixFirst", 0) == 1 {
+			// a fixed first version (symmetry: the later, drawn writes supply the variety)
+			v := &mVersion{ID: "ns0:e1", Props: map[string]string{"ns0:v": "x"}, Refs: map[string][]string{"ns0:p1": {"ns0:e2"}}}
+			h.Assert(hs.dss["d1"].StoreEntities([]*Entity{mkEntity(v)}) == nil, "first write")
+			hs.g.write("d1", []*mVersion{v})
+		} else {
+			hs.step(h, s, fam, false, false)
+		}
 		sn := hs.vEvalNow(h)
 		sn.t = time.Now().UnixNano()
 		snaps = append(snaps, sn)
@@ -126,7 +138,7 @@ func VerifC06History(h *verifh.H) {
 		cont = p1.Cont
 	}
 	for s := 0; s < suffix; s++ {
-		hs.step(h, steps+s, famMixed, false, true)
+		hs.step(h, steps+s, fam, false, true)
 	}
 	for k, sn := range snaps {
 		at := hs.vEvalAt(h, sn.t)
